@@ -313,7 +313,8 @@ pub fn generate(group: &str, r: &mut Rng, n: usize) -> Vec<Value> {
                     match r.below(5) {
                         0 | 1 => {
                             let rp = if r.chance(1, 2) { json!([["k", "v"]]) } else { json!([]) };
-                            ops.push(json!({"op":"relax","cid":c,"reason":format!("why{}", r.below(2)),"rparams":rp}))
+                            let reason = if r.chance(1, 4) { String::new() } else { format!("why{}", r.below(2)) };
+                            ops.push(json!({"op":"relax","cid":c,"reason":reason,"rparams":rp}))
                         }
                         2 | 3 => ops.push(json!({"op":"restore","cid":c})),
                         _ => {
@@ -364,7 +365,12 @@ pub fn generate(group: &str, r: &mut Rng, n: usize) -> Vec<Value> {
                 out.push(ev("with_parameters", format!("d-withparams-{k}"), json!({"pinst": inst.json, "pv": st_json(&pv)})));
             }
             for k in 0..n / 4 {
-                let inst = rand_instance(r, &DEFAULT);
+                let mut inst = rand_instance(r, &DEFAULT);
+                match r.below(3) {
+                    0 => inst.json["params"] = json!([[]]),
+                    1 => inst.json["params"] = json!([[[40, [1, 2]], [41, [3, 1]]]]),
+                    _ => {}
+                }
                 out.push(ev("to_parametric", format!("d-toparam-{k}"), json!({"inst": inst.json})));
             }
         }
